@@ -135,9 +135,14 @@ class Facts:
     def __init__(self, d):
         self.dir = d
         self.crates = {}
+        # functions renamed or moved against the reference tree are read under the name the rules know (sa/aliases.py)
+        from . import aliases as _al
+        self.aliases = {}
         for name in ("anything", "any"):
-            with open(os.path.join(d, name + ".mir.json")) as fh:
-                self.crates[name] = json.load(fh)
+            j, al = _al.load_crate(os.path.join(d, name + ".mir.json"), name)
+            self.crates[name] = j
+            for n, o in al.items():
+                self.aliases["%s::%s" % (name, o)] = n
         self.bodies = {}  # (crate, path) -> Body (main)
         self.proms = {}  # (crate, path, idx) -> Body
         self.all = []
